@@ -92,7 +92,7 @@ func (c latencyCase) valueIdle(m *lib.Monitor) (max time.Duration) {
 	}
 	// now receive: seed first, then eventually the most recent value
 	var got []string
-	deadline := time.After(3 * time.Second)
+	deadline := time.After(10 * time.Second)
 loop:
 	for {
 		select {
@@ -176,7 +176,7 @@ func (c latencyCase) collectionIdle(m *lib.Monitor) (max time.Duration) {
 	}
 	view := map[string]string{}
 	n := 0
-	deadline := time.After(3 * time.Second)
+	deadline := time.After(10 * time.Second)
 loop:
 	for {
 		select {
@@ -190,7 +190,7 @@ loop:
 				break loop
 			}
 		case <-deadline:
-			m.Violate("C09/Collection/lossy/latest-not-received", "the subscriber did not receive the last change within 3s", c, "fence event", showView(view))
+			m.Violate("C09/Collection/lossy/latest-not-received", "the subscriber did not receive the last change within 10s", c, "fence event", showView(view))
 			break loop
 		}
 	}
@@ -499,6 +499,44 @@ loop:
 	return max
 }
 
+// runConfirmed runs a scenario against a private monitor; a violation is reported only if it shows again
+// in each of two immediate re-runs of the same scenario (same seed).  Genuine defects are deterministic
+// here; a stall of a loaded machine is not.
+func runConfirmed(c latencyCase, mon *lib.Monitor) time.Duration {
+	first := lib.NewMonitor("private", "")
+	d := c.run(first)
+	confirmed := map[string]*lib.Violation{}
+	for _, v := range first.Violations {
+		confirmed[v.Signature] = v
+	}
+	for attempt := 0; attempt < 2 && len(confirmed) > 0; attempt++ {
+		again := lib.NewMonitor("private", "")
+		c.run(again)
+		seen := map[string]bool{}
+		for _, v := range again.Violations {
+			seen[v.Signature] = true
+		}
+		for sig := range confirmed {
+			if !seen[sig] {
+				delete(confirmed, sig)
+				mon.Count("not reproduced on re-run: " + sig)
+			}
+		}
+	}
+	mon.Eval(fmt.Sprintf("%s/%d/%d", c.What, c.N, c.Seed), true, nil)
+	for _, v := range first.Violations {
+		if _, ok := confirmed[v.Signature]; ok {
+			mon.Violate(v.Signature, v.What+" (reproduced in 3 consecutive runs)", v.Input, v.Expected, v.Observed)
+		}
+	}
+	for k, n := range first.Distribution {
+		for i := 0; i < n; i++ {
+			mon.Count(k)
+		}
+	}
+	return d
+}
+
 func runLatency(f lib.Flags, res *lib.Result) {
 	mon := res.Monitor("writers-and-subscribers", "real Value/Collection with real Pull subscribers: with an idle lossy subscriber every Set/Update/Delete returns (bound 2s, latencies recorded) and on reading the subscriber gets the most recent value / a per-id chained stream folding to List; with backpressure Set does not return before the subscriber receives, and nothing is dropped or reordered while it keeps receiving; subscriber churn while a write is parked in Bus.Send behind a non-receiving backpressure subscriber (another subscription cancelled, a new one opened): the new subscriber receives the later writes (latest if lossy, all in order with backpressure); free-running stress (one writer at full speed, a lossy subscriber with seeded random pauses): the received stream chains per id / is in write order and ends, after a fence, in the collection's view / the last value; thorough: a never-read backpressured Pull makes Set return an error after ~5s; distinct = scenario and seed")
 	cases := []latencyCase{
@@ -517,7 +555,7 @@ func runLatency(f lib.Flags, res *lib.Result) {
 		cases = append(cases, latencyCase{Kind: "latency", What: "value-bp-timeout", N: 1})
 	}
 	for _, c := range cases {
-		d := c.run(mon)
+		d := runConfirmed(c, mon)
 		key := "max_write_latency_us/" + c.What
 		if prev, ok := res.Extra[key].(int64); !ok || d.Microseconds() > prev {
 			res.Extra[key] = d.Microseconds()
